@@ -284,13 +284,18 @@ def R6_amount_accounting(run):
             """A definition var := ((var op X)? op Y)? ... : the fields X, Y, .. applied, or None unless every link is
             `checked_<op>(..).ok_or(..)?` (None is an error) and the chain starts at the role variable itself."""
             out_ = []
+            first = True
             for _ in range(4):
                 if t[0] != "q":
                     return None
-                s = strip(t)  # q(ok_or(checked_op(inner, X), Err))
-                if not (s[0] == "call" and s[1].endswith("ok_or") and is_call(s[2][0], op)):
+                s = strip(t)  # q(ok_or(checked_op(inner, X), Err)); inner links of an `and_then` chain share the outer ok_or
+                if s[0] == "call" and s[1].endswith("ok_or") and is_call(s[2][0], op):
+                    cs = strip(s[2][0])
+                elif not first and is_call(s, op):
+                    cs = s
+                else:
                     return None
-                cs = strip(s[2][0])
+                first = False
                 out_.append(strip(cs[2][1])[2] if strip(cs[2][1])[0] == "field" else "?")
                 inner = cs[2][0]
                 while inner[0] == "cast":
